@@ -9,7 +9,7 @@ COQ_HEADER = "From Plotink Require Import Base.Prelude Model.Grid Corr.C13.\nOpe
 COQ_RUN = "run13"
 COQ_CASE_TYPE = "case13"
 SHARD = 80
-RULE = ("1..14 paths on integer / rational grids (ends on cell borders, in corners, all in one cell, collinear so that one extent comes from the shim only), "
+RULE = ("1..14 paths on integer / rational grids (wide and tall drawings whose cells are 4-16 times longer one way than the other, ends on cell borders, in corners, all in one cell, collinear so that one extent comes from the shim only), "
         "bins in {1,2,3,4,10}, reverse on/off; histories interleave nearest queries (inside the grid, outside on each side, exactly on path ends, ties) "
         "with removals until no path remains; run on Fractions and compared query by query with the model; every answer is judged by brute force "
         "over the live ends (neighbourhood rule of the property); non-trivial = history with at least one removal and three queries")
@@ -21,6 +21,8 @@ def _pt(rng, mode):
     if mode == 1: return (F(rng.randint(0, 30), 3), F(rng.randint(0, 30), 3))
     if mode == 2: return (F(rng.randint(-50, 50)), F(rng.choice([0, 0, 0, 1])))         # nearly collinear
     if mode == 4: return (F(rng.randint(0, 40), 16), F(rng.randint(0, 40), 16))         # inch-scale drawing: distances below 1 (d and d^2 order differently against 1)
+    if mode == 6: return (F(rng.randint(0, 400)), F(rng.randint(0, 100), rng.choice([1, 1, 4])))       # wide drawing (4:1 .. 16:1): cells much wider than tall
+    if mode == 7: return (F(rng.randint(0, 60), 2), F(rng.randint(0, 900)))                              # tall drawing: cells much taller than wide
     if mode == 5: return (F(10**8 + rng.randint(-3, 3)), F(rng.randint(-3, 3)))         # far from the origin: squared distances differ in the 17th digit
     return (F(rng.randint(-1000, 1000), rng.randint(1, 7)), F(rng.randint(-1000, 1000), rng.randint(1, 7)))
 
@@ -28,7 +30,7 @@ def generate(rng, tier):
     n = 260 if tier == "quick" else 15000
     cases = []
     for _ in range(n):
-        mode = rng.choice([0, 1, 2, 3, 4, 4, 5])
+        mode = rng.choice([0, 1, 2, 3, 4, 4, 5, 6, 6, 7])
         np_ = rng.choice([1, 1, 2, 3, 4, 6, 9, 14])
         paths = [(_pt(rng, mode), _pt(rng, mode)) for _ in range(np_)]
         if rng.random() < 0.1: paths = [paths[0]] * np_                                    # all the same path (zero extent unless reverse separates the ends)
@@ -52,6 +54,28 @@ def generate(rng, tier):
         while alive and rng.random() < 0.5:
             i = alive.pop(); ops.append(("r", i)); ops.append(("q", rng.choice(pts)))
         cases.append({"paths": paths, "bins": bins, "reverse": reverse, "ops": ops, "family": "mode%d/bins%d/%s" % (mode, bins, "rev" if reverse else "fwd")})
+    # oblong cells: the query sits close to a long wall of its cell; an end in its own cell is farther away than that wall but nearer
+    # than the cell is long, and a closer end lies just across the wall (in the cell above / below, or left / right for tall drawings)
+    for _ in range(max(16, n // 12)):
+        bins = rng.choice([2, 3, 3, 4, 5]); ratio = rng.choice([4, 4, 8, 16]); H = F(rng.choice([100, 60, 90])); W = H * ratio
+        ch = H / bins; cw = W / bins
+        row = rng.randint(0, bins - 2); col = rng.randint(0, bins - 1)
+        wall = ch * (row + 1); cx = cw * col + cw * F(rng.randint(3, 7), 10)
+        delta = ch * F(rng.choice([5, 10, 15, 20]), 100)
+        d1 = delta * F(rng.choice([15, 20, 30]), 10); eps = delta * F(rng.choice([1, 2, 4]), 10)
+        up = rng.random() < 0.5
+        q = (cx, wall - delta) if up else (cx, wall + delta)
+        A = (cx + rng.choice([0, 1, -1]), wall - delta - d1) if up else (cx + rng.choice([0, 1, -1]), wall + delta + d1)
+        Bp = (cx, wall + eps) if up else (cx, wall - eps)
+        far = lambda: (F(rng.randint(0, int(W))), F(rng.randint(0, int(H))))
+        ends = [(F(0), F(0)), (W, H), A, Bp] + [far() for _ in range(rng.randint(0, 3))]
+        paths = [(e, far()) for e in ends]
+        tall = rng.random() < 0.3
+        if tall:
+            paths = [((a[1], a[0]), (b[1], b[0])) for a, b in paths]; q = (q[1], q[0])
+        ops = [("q", q)]
+        if rng.random() < 0.5: ops = [("q", paths[-1][0]), ("r", len(paths) - 1)] + ops + [("q", q)]
+        cases.append({"paths": paths, "bins": bins, "reverse": False, "ops": ops, "family": "oblong-cells/%s/bins%d/ratio%d" % ("tall" if tall else "wide", bins, ratio)})
     return cases
 
 def run_impl(c):
